@@ -1,5 +1,5 @@
-\* Demonstration only (not run by any check): TLC exhibits the loss of a leader-epoch
-\* entry by a compaction that overlaps an append (EpochCacheKnowsLatest is violated).
+\* Demonstration only (not run by any check): before /repo 3ee1c3a TLC exhibited the loss of a leader-epoch
+\* entry by a compaction that overlaps an append (EpochCacheKnowsLatest violated); now the invariant holds.
 SPECIFICATION MCSpec
 CONSTANTS
   MaxRecs = 4
